@@ -35,6 +35,8 @@ type c05Stats struct {
 	pages    int
 	fonts    int
 	maxRaw   int64
+	mon      *kit.Monitor
+	shape    string
 }
 
 const c05StreamCap = 8 << 20
@@ -46,6 +48,11 @@ func (st *c05Stats) timed(stage string, f func()) {
 	}
 	t0 := kit.CPUSeconds()
 	defer func() { st.stage[stage] += kit.CPUSeconds() - t0 }()
+	if st.mon != nil {
+		// a CPU-budget abort is attributed like an exceeded bound
+		st.mon.SetNote(stage + "/" + st.shape)
+		defer st.mon.SetNote("")
+	}
 	f()
 }
 
@@ -947,6 +954,13 @@ func c05Run(c *kit.Case, mon *kit.Monitor, data []byte, what string) {
 	path := filepath.Join(c.R.OutDir(), fmt.Sprintf("c05-current-%d.bin", c.R.Shard))
 	os.WriteFile(path, data, 0o644)
 	var st c05Stats
+	// signature of the input for the key: many indirect-object headers?
+	nobj := len(c05ObjRe.FindAllIndex(data, 300))
+	shape := "few-object-headers"
+	if nobj >= 256 {
+		shape = "objects>=256"
+	}
+	st.mon, st.shape = mon, shape
 	u := mon.Guard(fmt.Sprintf("%s:%d %s (%d bytes, input saved as %s)", c.Phase, c.Index, what, len(data), path), func() {
 		c05Walk(data, &st)
 	})
@@ -966,12 +980,6 @@ func c05Run(c *kit.Case, mon *kit.Monitor, data []byte, what string) {
 		// its slow-down makes the resource bounds meaningless
 		c.R.Count("walks_under_race_detector", 1)
 		return
-	}
-	// signature of the input for the key: many indirect-object headers?
-	nobj := len(c05ObjRe.FindAllIndex(data, 300))
-	shape := "few-object-headers"
-	if nobj >= 256 {
-		shape = "objects>=256"
 	}
 	cpuBound := 10.0 + 2e-6*float64(4*in+st.produced)*float64(max(1, st.readers))
 	if u.CPU > cpuBound {
